@@ -18,6 +18,7 @@ META = {
     "assumptions": [],
 }
 META["explanation"] += " " + '(TB-casepair) wherever the number scanner tests one spelling of the exponent marker (e / E) it tests the other in the same arm or condition.'
+META["explanation"] += " " + '(PR-expmarker) abstract paths from every switch arm that finds an exponent marker under the cursor (domain: value set of that unit, cursor-in-bounds, literal booleans): a number is returned only after the exponent scanner was called. (PR-accumulate) a recognised digit is accumulated unconditionally or under a bound on the accumulator only. (SIGN-unit) see C02.'
 
 STRUCT = {"QuoteChar": '"', "CommaChar": ",", "ColonChar": ":", "SCurlyChar": "{", "ECurlyChar": "}",
           "SSquareChar": "[", "ESquareChar": "]", "SlashChar": "/", "BSlashChar": "\\",
